@@ -247,3 +247,156 @@ Lemma resolved_vicis_wave_hedges :
   exists m, resolve "vicis_wave_hedges" = Some m /\
     forall x y : list R, length x = length y -> metric_value m x y = sp_vicis_wave_hedges (shift x) (shift y).
 Proof. resolved ir_vicis_wave_hedges closed_form_vicis_wave_hedges. Qed.
+
+(* ---- all of them, as the one conjunction Props/C06.v states ---- *)
+Open Scope R_scope.
+
+Lemma closed_forms_all :
+  (exists m, resolve "additive_symmetric" = Some m /\
+     forall x y : list R, length x = length y -> metric_value m x y = sp_additive_symmetric (shift x) (shift y))
+  /\ (exists m, resolve "average_euclidean" = Some m /\
+     forall x y : list R, length x = length y -> metric_value m x y = sp_average_euclidean x y)
+  /\ (exists m, resolve "bhattacharyya" = Some m /\
+     forall x y : list R, length x = length y -> metric_value m x y = sp_bhattacharyya (shift x) (shift y))
+  /\ (exists m, resolve "bray_curtis" = Some m /\
+     forall x y : list R, length x = length y -> metric_value m x y = sp_bray_curtis (shift x) (shift y))
+  /\ (exists m, resolve "canberra" = Some m /\
+     forall x y : list R, length x = length y -> metric_value m x y = sp_canberra (shift x) (shift y))
+  /\ (exists m, resolve "chebyshev" = Some m /\
+     forall x y : list R, length x = length y -> metric_value m x y = sp_chebyshev x y)
+  /\ (exists m, resolve "chi_squared" = Some m /\
+     forall x y : list R, length x = length y -> metric_value m x y = sp_chi_squared (shift x) (shift y))
+  /\ (exists m, resolve "chord" = Some m /\
+     forall x y : list R, length x = length y -> metric_value m x y = sp_chord (shift x) (shift y))
+  /\ (exists m, resolve "clark" = Some m /\
+     forall x y : list R, length x = length y -> metric_value m x y = sp_clark (shift x) (shift y))
+  /\ (exists m, resolve "cosine" = Some m /\
+     forall x y : list R, length x = length y -> metric_value m x y = sp_cosine (shift x) (shift y))
+  /\ (exists m, resolve "dice" = Some m /\
+     forall x y : list R, length x = length y -> metric_value m x y = sp_dice (shift x) (shift y))
+  /\ (exists m, resolve "divergence" = Some m /\
+     forall x y : list R, length x = length y -> metric_value m x y = sp_divergence (shift x) (shift y))
+  /\ (exists m, resolve "euclidean" = Some m /\
+     forall x y : list R, length x = length y -> metric_value m x y = sp_euclidean x y)
+  /\ (exists m, resolve "gaussian" = Some m /\
+     forall x y : list R, length x = length y -> metric_value m x y = sp_gaussian 1 x y)
+  /\ (exists m, resolve "gaussian" = Some m /\
+     forall (g : R) (x y : list R), length x = length y ->
+       metric_value_with (fun _ => g) m x y = sp_gaussian g x y)
+  /\ (exists m, resolve "gower" = Some m /\
+     forall x y : list R, length x = length y -> metric_value m x y = sp_gower x y)
+  /\ (exists m, resolve "hamming" = Some m /\
+     forall x y : list R, length x = length y -> metric_value m x y = sp_hamming x y)
+  /\ (exists m, resolve "hassanat" = Some m /\
+     forall x y : list R, length x = length y -> metric_value m x y = sp_hassanat (shift x) (shift y))
+  /\ (exists m, resolve "hellinger" = Some m /\
+     forall x y : list R, length x = length y -> metric_value m x y = sp_hellinger x y)
+  /\ (exists m, resolve "jaccard" = Some m /\
+     forall x y : list R, length x = length y -> metric_value m x y = sp_jaccard (shift x) (shift y))
+  /\ (exists m, resolve "jeffreys" = Some m /\
+     forall x y : list R, length x = length y -> metric_value m x y = sp_jeffreys (shift x) (shift y))
+  /\ (exists m, resolve "jensen" = Some m /\
+     forall x y : list R, length x = length y -> metric_value m x y = sp_jensen (shift x) (shift y))
+  /\ (exists m, resolve "jensen_shannon" = Some m /\
+     forall x y : list R, length x = length y -> metric_value m x y = sp_jensen_shannon (shift x) (shift y))
+  /\ (exists m, resolve "k_divergence" = Some m /\
+     forall x y : list R, length x = length y -> metric_value m x y = sp_k_divergence (shift x) (shift y))
+  /\ (exists m, resolve "kulczynski" = Some m /\
+     forall x y : list R, length x = length y -> metric_value m x y = sp_kulczynski (shift x) (shift y))
+  /\ (exists m, resolve "kullback_leibler" = Some m /\
+     forall x y : list R, length x = length y -> metric_value m x y = sp_kullback_leibler (shift x) (shift y))
+  /\ (exists m, resolve "log_euclidean" = Some m /\
+     forall x y : list R, length x = length y -> metric_value m x y = sp_log_euclidean x y)
+  /\ (exists m, resolve "log_squared_euclidean" = Some m /\
+     forall x y : list R, length x = length y -> metric_value m x y = sp_log_squared_euclidean x y)
+  /\ (exists m, resolve "lorentzian" = Some m /\
+     forall x y : list R, length x = length y -> metric_value m x y = sp_lorentzian x y)
+  /\ (exists m, resolve "manhattan" = Some m /\
+     forall x y : list R, length x = length y -> metric_value m x y = sp_manhattan x y)
+  /\ (exists m, resolve "matusita" = Some m /\
+     forall x y : list R, length x = length y -> metric_value m x y = sp_matusita x y)
+  /\ (exists m, resolve "max_symmetric" = Some m /\
+     forall x y : list R, length x = length y -> metric_value m x y = sp_max_symmetric (shift x) (shift y))
+  /\ (exists m, resolve "mean_censored_euclidean" = Some m /\
+     forall x y : list R, length x = length y -> metric_value m x y = sp_mean_censored_euclidean (shift x) (shift y))
+  /\ (exists m, resolve "min_symmetric" = Some m /\
+     forall x y : list R, length x = length y -> metric_value m x y = sp_min_symmetric (shift x) (shift y))
+  /\ (exists m, resolve "neyman" = Some m /\
+     forall x y : list R, length x = length y -> metric_value m x y = sp_neyman (shift x) (shift y))
+  /\ (exists m, resolve "non_intersection" = Some m /\
+     forall x y : list R, length x = length y -> metric_value m x y = sp_non_intersection x y)
+  /\ (exists m, resolve "pearson" = Some m /\
+     forall x y : list R, length x = length y -> metric_value m x y = sp_pearson (shift x) (shift y))
+  /\ (exists m, resolve "sangvi" = Some m /\
+     forall x y : list R, length x = length y -> metric_value m x y = sp_sangvi (shift x) (shift y))
+  /\ (exists m, resolve "soergel" = Some m /\
+     forall x y : list R, length x = length y -> metric_value m x y = sp_soergel (shift x) (shift y))
+  /\ (exists m, resolve "squared" = Some m /\
+     forall x y : list R, length x = length y -> metric_value m x y = sp_squared (shift x) (shift y))
+  /\ (exists m, resolve "squared_chord" = Some m /\
+     forall x y : list R, length x = length y -> metric_value m x y = sp_squared_chord x y)
+  /\ (exists m, resolve "squared_euclidean" = Some m /\
+     forall x y : list R, length x = length y -> metric_value m x y = sp_squared_euclidean x y)
+  /\ (exists m, resolve "statistic" = Some m /\
+     forall x y : list R, length x = length y -> metric_value m x y = sp_statistic (shift x) (shift y))
+  /\ (exists m, resolve "topsoe" = Some m /\
+     forall x y : list R, length x = length y -> metric_value m x y = sp_topsoe (shift x) (shift y))
+  /\ (exists m, resolve "vicis_symmetric1" = Some m /\
+     forall x y : list R, length x = length y -> metric_value m x y = sp_vicis_symmetric1 (shift x) (shift y))
+  /\ (exists m, resolve "vicis_symmetric2" = Some m /\
+     forall x y : list R, length x = length y -> metric_value m x y = sp_vicis_symmetric2 (shift x) (shift y))
+  /\ (exists m, resolve "vicis_symmetric3" = Some m /\
+     forall x y : list R, length x = length y -> metric_value m x y = sp_vicis_symmetric3 (shift x) (shift y))
+  /\ (exists m, resolve "vicis_wave_hedges" = Some m /\
+     forall x y : list R, length x = length y -> metric_value m x y = sp_vicis_wave_hedges (shift x) (shift y)).
+Proof.
+  exact
+  (conj resolved_additive_symmetric
+  (conj resolved_average_euclidean
+  (conj resolved_bhattacharyya
+  (conj resolved_bray_curtis
+  (conj resolved_canberra
+  (conj resolved_chebyshev
+  (conj resolved_chi_squared
+  (conj resolved_chord
+  (conj resolved_clark
+  (conj resolved_cosine
+  (conj resolved_dice
+  (conj resolved_divergence
+  (conj resolved_euclidean
+  (conj resolved_gaussian
+  (conj resolved_gaussian_gamma
+  (conj resolved_gower
+  (conj resolved_hamming
+  (conj resolved_hassanat
+  (conj resolved_hellinger
+  (conj resolved_jaccard
+  (conj resolved_jeffreys
+  (conj resolved_jensen
+  (conj resolved_jensen_shannon
+  (conj resolved_k_divergence
+  (conj resolved_kulczynski
+  (conj resolved_kullback_leibler
+  (conj resolved_log_euclidean
+  (conj resolved_log_squared_euclidean
+  (conj resolved_lorentzian
+  (conj resolved_manhattan
+  (conj resolved_matusita
+  (conj resolved_max_symmetric
+  (conj resolved_mean_censored_euclidean
+  (conj resolved_min_symmetric
+  (conj resolved_neyman
+  (conj resolved_non_intersection
+  (conj resolved_pearson
+  (conj resolved_sangvi
+  (conj resolved_soergel
+  (conj resolved_squared
+  (conj resolved_squared_chord
+  (conj resolved_squared_euclidean
+  (conj resolved_statistic
+  (conj resolved_topsoe
+  (conj resolved_vicis_symmetric1
+  (conj resolved_vicis_symmetric2
+  (conj resolved_vicis_symmetric3
+  resolved_vicis_wave_hedges))))))))))))))))))))))))))))))))))))))))))))))).
+Qed.
